@@ -54,6 +54,18 @@ def mcref_replay(v, pid, runs, entries, nshards=16, sample_every=0):
     return ncases, nruns, nident, obs
 
 
+F13_WHAT = ("a text in binary function style without parentheses (leading binary operator, binary operator after `(`, two operands "
+            "side by side, `)(`) is accepted by the flat and the deep parser with different meanings")
+
+
+def known_expr_finding(v, verdict):
+    """Classification of expression verdicts that fall under an open known finding (computed by the judge)."""
+    if "[F13:" in verdict and vlib.finding_open("F13"):
+        v.known_finding("F13", F13_WHAT)
+        return True
+    return False
+
+
 def judge_and_classify(v, pid, obs_paths, tag, what, classes=None):
     """Merges forwarded observations, lets TLC judge them, files violations."""
     trace = work(pid, tag + ".trace.ndjson")
@@ -69,7 +81,7 @@ def judge_and_classify(v, pid, obs_paths, tag, what, classes=None):
     for res, verdicts in pipeline.split_and_judge(trace, f"{pid}-judge-{tag}", n):
         v.add_tlc(res, f"Judge_Expr[{tag}]")
         for case, (cls, verdict, entry) in verdicts.items():
-            if verdict == "ok" or (classes is not None and cls not in classes):
+            if verdict == "ok" or (classes is not None and cls not in classes) or known_expr_finding(v, verdict):
                 continue
             nbad += 1
             r = recs.get(case, {})
@@ -200,7 +212,7 @@ def expr_dir_b(v, pid, tier, entries, what, families=("mixed", "nested")):
         v.add_tlc(r, f"Judge_Expr[{os.path.basename(p)}]")
         recs = None
         for case, (cls, verdict, entry) in verdicts.items():
-            if verdict == "ok":
+            if verdict == "ok" or known_expr_finding(v, verdict):
                 continue
             if recs is None:
                 recs = {}
@@ -274,7 +286,7 @@ def file_verdicts(v, obs_path, verdicts, what, kind="text", classes=None):
     recs = None
     n = 0
     for case, (cls, verdict, entry) in verdicts.items():
-        if verdict == "ok" or (classes is not None and cls not in classes):
+        if verdict == "ok" or (classes is not None and cls not in classes) or known_expr_finding(v, verdict):
             continue
         if recs is None:
             recs = {}
@@ -1598,6 +1610,9 @@ def replay(a):
         _, verdicts = pipeline.judge_expr(obs, f"{pid}-replay")
         bad = [(c, v) for c, v in verdicts.items() if v[1] != "ok"]
         log(f"replay of `{vlib.uncps(rec['text'])}`: {verdicts}")
+        if bad and all("[F13:" in v[1] for _, v in bad) and vlib.finding_open("F13"):
+            log(f"KNOWN-FINDING: property={pid} F13: {F13_WHAT}")
+            return 0
         if bad:
             log(f"VIOLATION property={pid} replay={a.replay}")
             return 1
